@@ -24,10 +24,15 @@ fn pool() -> Vec<(Leaf, &'static str)> {
         (Bool(true), "bool"), (Bool(false), "bool"),
         (Err("#DIV/0!"), "error"), (Err("#N/A"), "error"), (Err("#VALUE!"), "error"), (Err("#NUM!"), "error"),
         (Empty, "empty"),
+        // case variants of boolean-looking strings (cast_to_bool lowercases before comparing) and
+        // number-looking strings with sign / exponent / spaces (cast_number trims, str::parse reads sign and exponent)
+        (Str("True"), "booltext_mixed"), (Str("tRuE"), "booltext_mixed"), (Str("true"), "booltext"), (Str("False"), "booltext_mixed"),
+        (Str("FALSE"), "booltext"), (Str("fALSe"), "booltext_mixed"), (Str("-2"), "numtext_sign"), (Str("+3"), "numtext_sign"),
+        (Str("1E2"), "numtext_exp"), (Str(" 1e2 "), "numtext_spaces"), (Str("-1.5e-1"), "numtext_exp"), (Str(" TRUE"), "booltext_spaces"),
     ]
 }
 // representatives of each class, used where the full square would be too large
-const REPS: [usize; 8] = [3, 4, 8, 12, 13, 20, 23, 26];
+const REPS: [usize; 10] = [3, 4, 8, 12, 13, 20, 23, 26, 28, 33];
 
 fn col_name(c: i32) -> String { ironcalc_base::expressions::utils::number_to_column(c).unwrap() }
 
@@ -233,6 +238,16 @@ fn main() {
             cx.program("exh_cse", &format!("={}{}{}", x, o, y), Some((2, 2)));
         }
     } } } }
+    // (10) every cast x every value kind as a LITERAL: each binary operator and each two-argument function with every pool
+    //      value (that has a literal form) in each position, the other operand fixed; logical contexts with three arguments
+    for i in 0..n { if let Some(x) = operand(&pl, i, 1) {
+        for o in BINOPS { cx.program("exh_literal_casts", &format!("={x}{o}A2"), None); cx.program("exh_literal_casts", &format!("=A4{o}{x}"), None); }
+        for f in FN2 { cx.program("exh_literal_casts", &format!("={f}({x},A2)"), None); cx.program("exh_literal_casts", &format!("={f}(A4,{x})"), None); }
+        cx.program("exh_literal_casts", &format!("=IF({x},\"t\",\"f\")"), None);
+        cx.program("exh_literal_casts", &format!("=AND(TRUE,{x},A21)"), None);
+        cx.program("exh_literal_casts", &format!("=OR(FALSE,{x},A22)"), None);
+        cx.program("exh_literal_casts", &format!("=NOT({x})&LEN({x})&-{x}"), None);
+    } }
     // (9) full-column / full-row ranges as aggregate arguments: same sheet, a LARGER other sheet, a SMALLER other sheet
     cx.multi = true; cx.m = base_multi(&pl);
     for f in ["SUM", "MIN", "MAX", "COUNT", "COUNTA", "AVERAGE", "AND", "OR", "CONCAT"] {
